@@ -14,8 +14,6 @@
 package certcodec
 
 import (
-	"crypto/elliptic"
-	"crypto/sha256"
 	"errors"
 	"fmt"
 	"math/big"
@@ -23,7 +21,6 @@ import (
 
 	"github.com/slackhq/nebula/cert"
 	"github.com/slackhq/nebula/cert/p256"
-	"google.golang.org/protobuf/proto"
 	cl "verifharness/certlib"
 	"verifharness/hlib"
 )
@@ -200,52 +197,6 @@ func twMalformed(r *hlib.Rand, rr, ss *big.Int) [][]byte {
 	return out
 }
 
-// twGrind signs certificates under key until the issued signature (r, s) has min(s, N-s) < 2^239 — the class in which
-// N-s of the HIGH form has two or more leading zero bytes followed by a byte below 0x80 — by fixing the nonce and
-// walking the certificate name (ECDSA: s = k^-1 (z + r d)). Returns the fields and the low-S signature.
-func twGrind(r *hlib.Rand, key *cl.SignKey, f cl.Fields, budget int) (cl.Fields, *big.Int, *big.Int, bool) {
-	d := new(big.Int).SetBytes(key.Priv)
-	k := twRandScalar(r)
-	x, _ := elliptic.P256().ScalarBaseMult(k.Bytes())
-	rr := new(big.Int).Mod(x, twN)
-	if rr.Sign() == 0 {
-		return f, nil, nil, false
-	}
-	kinv := new(big.Int).ModInverse(k, twN)
-	rd := new(big.Int).Mod(new(big.Int).Mul(rr, d), twN)
-	lim := new(big.Int).Lsh(twOne, 239)
-	base := f.Name
-	ctr := r.Intn(1 << 20)
-	for i := 0; i < budget; i++ {
-		f.Name = fmt.Sprintf("%s-%x", base, ctr+i)
-		var tbs []byte
-		if f.Version == 1 {
-			var err error
-			tbs, err = proto.Marshal(cl.V1Details(f))
-			if err != nil {
-				panic(err)
-			}
-		} else {
-			tbs = append(append(cl.V2Details(f), byte(f.Curve)), f.PublicKey...)
-		}
-		h := sha256.Sum256(tbs)
-		z := new(big.Int).SetBytes(h[:])
-		s := z.Add(z, rd)
-		s.Mul(s, kinv).Mod(s, twN)
-		if s.Sign() == 0 {
-			continue
-		}
-		hi := new(big.Int).Sub(twN, s)
-		if s.Cmp(lim) < 0 {
-			return f, rr, s, true
-		}
-		if hi.Cmp(lim) < 0 {
-			return f, rr, hi, true
-		}
-	}
-	return f, nil, nil, false
-}
-
 func genTwin(r *hlib.Rand, n int, tier string, emit func(string, ...any)) {
 	emit("p256n")
 	scal := twScalars(r)
@@ -343,7 +294,7 @@ func genTwin(r *hlib.Rand, n int, tier string, emit func(string, ...any)) {
 	for i := 0; i < grinds; i++ {
 		ver, caver := 1+i%2, hlib.Pick(r, 1, 2)
 		caraw, ca, cafp := mkCA(caver)
-		f, rr, s, ok := twGrind(r, key, leaf(ver, cafp), 1500000)
+		f, rr, s, ok := cl.GrindShortS(r, key, leaf(ver, cafp), 1500000)
 		if !ok {
 			continue
 		}
